@@ -636,7 +636,7 @@ func TestVerifC07(t *testing.T) {
 	}
 
 	r := &verifRng{s: verifSeed()*0x9e37 + 7}
-	total := 16
+	total := 24
 	if verifThorough() {
 		total = 200
 	}
